@@ -173,6 +173,16 @@ def b_soc(case, rng, P):
     return Soc(), [dec.bus] + elements, lambda: map_meta(dec.bus.memory_map), None
 
 
+_SPELL = {"rng": None}
+
+
+def I(n):
+    """An integer parameter as the caller may spell it (bool for 0/1, IntEnum member, int subclass): the component
+    has to be built (and then behave as for the plain int) or be refused descriptively."""
+    from vmon.simkit import spell_int
+    return spell_int(_SPELL["rng"], n, p=0.06) if _SPELL["rng"] is not None else n
+
+
 class Pair(wiring.Component):
     """The judged component next to a second one of its class that took over what the first refused: a refused
     add() must leave nothing behind in the component that refused it (the interface is free to go elsewhere)."""
@@ -212,12 +222,12 @@ def b_csrdec(case, rng, P):
     aw, dw = rng.randint(1, 10), rng.choice([1, 8, 16, 32])
     al = rng.choice([0, 0, 1, 2, 5])
     P.update(aw=aw, dw=dw, al=al, subs=[])
-    dec = csr.Decoder(addr_width=aw, data_width=dw, alignment=al)
+    dec = csr.Decoder(addr_width=I(aw), data_width=I(dw), alignment=I(al))
     subs, refused = [], []
     for i in range(rng.randint(0, 5)):
         k = rng.randint(1, aw)
         sdw = dw if rng.random() < 0.9 else rng.choice([8, 16])
-        sub = csr.Interface(addr_width=k, data_width=sdw, path=(f"s{i}",))
+        sub = csr.Interface(addr_width=I(k), data_width=I(sdw), path=(f"s{i}",))
         sub.memory_map = MemoryMap(addr_width=k, data_width=sdw)
         P["subs"].append((k, sdw))
         try:
@@ -239,7 +249,7 @@ def b_wbdec(case, rng, P):
     aw = rng.choice([0, 0, 1, 2, 4, 8, 12])
     feats = {f for f in ("err", "rty", "stall", "lock", "cti", "bte") if rng.random() < 0.4}
     P.update(aw=aw, dw=dw, gran=gran, features=sorted(feats), subs=[])
-    dec = wishbone.Decoder(addr_width=aw, data_width=dw, granularity=gran, features=spell_features(rng, feats),
+    dec = wishbone.Decoder(addr_width=I(aw), data_width=I(dw), granularity=I(gran), features=spell_features(rng, feats),
                            alignment=rng.choice([0, 0, 2]))
     map_aw = max(1, aw + gbits)
     subs, refused = [], []
@@ -254,7 +264,7 @@ def b_wbdec(case, rng, P):
         sfeat = {f for f in ("err", "rty", "stall", "lock", "cti", "bte") if rng.random() < 0.4}
         if rng.random() < 0.85:
             sfeat -= {"err", "rty", "stall"} - feats
-        sub = wishbone.Interface(addr_width=saw, data_width=sdw, granularity=sgran, features=sfeat, path=(f"s{i}",))
+        sub = wishbone.Interface(addr_width=I(saw), data_width=I(sdw), granularity=I(sgran), features=sfeat, path=(f"s{i}",))
         smap_aw = max(1, saw + ((sdw // sgran).bit_length() - 1))
         sub.memory_map = MemoryMap(addr_width=smap_aw, data_width=sgran)
         P["subs"].append((saw, sdw, sgran, sparse, sorted(sfeat)))
@@ -277,7 +287,7 @@ def b_arb(case, rng, P):
     aw = rng.choice([0, 1, 4, 16, 30])
     feats = {f for f in ("err", "rty", "stall", "lock", "cti", "bte") if rng.random() < 0.4}
     P.update(aw=aw, dw=dw, gran=gran, features=sorted(feats), intrs=[])
-    arb = wishbone.Arbiter(addr_width=aw, data_width=dw, granularity=gran, features=spell_features(rng, feats))
+    arb = wishbone.Arbiter(addr_width=I(aw), data_width=I(dw), granularity=I(gran), features=spell_features(rng, feats))
     intrs, refused = [], []
     for i in range(rng.randint(0, 5)):
         ig = rng.choice([g for g in (8, 16, 32, 64) if g <= dw])
@@ -285,7 +295,7 @@ def b_arb(case, rng, P):
         if rng.random() < 0.8:
             ifeat |= feats & {"err", "rty"}
             ig = max(ig, gran)
-        ib = wishbone.Interface(addr_width=aw if rng.random() < 0.9 else aw + 1, data_width=dw, granularity=ig,
+        ib = wishbone.Interface(addr_width=aw if rng.random() < 0.9 else aw + 1, data_width=I(dw), granularity=I(ig),
                                 features=ifeat, path=(f"i{i}",))
         P["intrs"].append((ig, sorted(ifeat)))
         try:
@@ -307,7 +317,7 @@ def b_sram(case, rng, P):
     depth = max(1, size * gran // dw)
     init = [rng.getrandbits(dw) for _ in range(rng.choice([0, depth, depth + 1 if rng.random() < 0.1 else depth]))]
     P.update(size=size, dw=dw, gran=gran, init_len=len(init))
-    dut = WishboneSRAM(size=size, data_width=dw, granularity=gran, writable=rng.random() < 0.7, init=init)
+    dut = WishboneSRAM(size=I(size), data_width=I(dw), granularity=I(gran), writable=rng.random() < 0.7, init=init)
     return dut, [], lambda: map_meta(dut.wb_bus.memory_map), None
 
 
@@ -316,9 +326,9 @@ def b_wbbridge(case, rng, P):
     wdw = rng.choice([None, 8, 16, 32, 64])
     caw = rng.randint(1, 10)
     P.update(cdw=cdw, wdw=wdw, caw=caw)
-    cb = csr.Interface(addr_width=caw, data_width=cdw, path=("csr",))
+    cb = csr.Interface(addr_width=I(caw), data_width=I(cdw), path=("csr",))
     cb.memory_map = MemoryMap(addr_width=caw, data_width=cdw)
-    dut = WishboneCSRBridge(cb, data_width=wdw, name=rng.choice([None, "csr", ("csr", 0)]))
+    dut = WishboneCSRBridge(cb, data_width=I(wdw), name=rng.choice([None, "csr", ("csr", 0)]))
     return dut, [cb], lambda: map_meta(dut.wb_bus.memory_map), None
 
 
@@ -412,7 +422,7 @@ def b_csrevmon(case, rng, P):
     dw = rng.choice([8, 16, 32, 5])
     al = rng.choice([0, 0, 1, 3])
     P.update(dw=dw, al=al)
-    dut = EventMonitor(em, trigger=rng.choice(["level", "rise"]), data_width=dw, alignment=al)
+    dut = EventMonitor(em, trigger=rng.choice(["level", "rise"]), data_width=I(dw), alignment=I(al))
     return dut, srcs, lambda: (ev_meta(em), map_meta(dut.bus.memory_map)), None
 
 
@@ -422,7 +432,7 @@ def b_gpio(case, rng, P):
     aw = rng.choice([2, 3, 4, 5, 6, 8])
     stages = rng.choice([0, 1, 2, 3])
     P.update(pins=pins, dw=dw, aw=aw, stages=stages)
-    dut = gpio.Peripheral(pin_count=pins, addr_width=aw, data_width=dw, input_stages=stages)
+    dut = gpio.Peripheral(pin_count=I(pins), addr_width=I(aw), data_width=I(dw), input_stages=I(stages))
     return dut, [], lambda: map_meta(dut.bus.memory_map), None
 
 
@@ -488,6 +498,7 @@ def run_case(case):
 
     # ---------------- construction
     finding = None
+    _SPELL["rng"] = random.Random(case["stim_seed"] + ":spell")
     try:
         with StepCounter(200_000) as sc:
             dut, extra, meta_fn, finding = BUILDERS[kind](case, rng, P)
